@@ -14,4 +14,4 @@ META = {"text": "TLC explores SgKernel on programs whose activities have exact c
 
 
 def run(ctx):
-    kernel_sync.run(ctx, "timed", 150, 2000, gen=lambda rng, quick: K.gen_timed_prog(rng, max_actors=3, max_ops=3 if quick else 4))
+    kernel_sync.run(ctx, "timed", 150, 800, gen=lambda rng, quick: K.gen_timed_prog(rng, max_actors=3, max_ops=3 if quick else 4))
